@@ -487,7 +487,7 @@ def check_occurrences(R, kind, text, marks):
             R.violation("marker-leaked:%s:%s.%s" % (kind, cls, attr), "a protection marker reached the tree: %s.%s = %r" % (cls, attr, v[:80]), case)
             return
     alltext = "\x00".join(v for cls, attr, v in strs if attr == "caption")
-    for word, n in marks.items():
+    for word, n in (marks or {}).items():
         got = alltext.count(word)
         if got != n:
             R.violation("region-%s:%s" % ("lost" if got < n else "duplicated", kind),
@@ -503,6 +503,13 @@ def adjacency_cases(rnd, nrandom):
                 k += 1
                 body = "''Bq%dz'' [[n]]" % k
                 yield "glued", "%s<%s>%s</%s>%s tail" % (pre_, tag, body, tag, post), {body: 1}
+    # a region inside the attribute text of a tag, known or unknown to the parser
+    for tag in TAGS:
+        for pre_, post in (("<foo ", ">"), ("<foo title=\"", "\">"), ("<video src=\"", "\"/>"), ("<unknowntag ", " x=1>"),
+                           ("<div title=\"", "\">d</div>"), ("<br ", "/>")):
+            k += 1
+            body = "''Bq%dz''" % k
+            yield "in-tag-attribute", "a %s<%s>%s</%s>%s b" % (pre_, tag, body, tag, post), None
     for tname, (tbody, times) in MULTI.items():
         for tag in TAGS:
             k += 1
